@@ -280,6 +280,11 @@ class DefinitionsMapper:
         for attr in body.attrs:
             attr.restrictions.min_occurs = 0
 
+        # A fault response comes without the headers of the normal response
+        for attr in target.attrs:
+            if attr.name == "Header":
+                attr.restrictions.min_occurs = 0
+
     @classmethod
     def build_envelope_class(
         cls,
